@@ -67,12 +67,18 @@ impl TaskPool {
     /// Executes a function in a thread.
     /// If no thread is available, spawns a new one.
     pub fn spawn(&self, code: Box<dyn FnMut() + Send>) {
+        #[cfg(tiny_http_verif)]
+        crate::verif::point(crate::verif::FP_POOL_SPAWN, 0, 0);
         let mut queue = self.sharing.todo.lock().unwrap();
 
         if self.sharing.waiting_tasks.load(Ordering::Acquire) == 0 {
+            #[cfg(tiny_http_verif)]
+            crate::verif::point(crate::verif::FP_POOL_DISPATCH, 0, queue.len());
             self.add_thread(Some(code));
         } else {
             queue.push_back(code);
+            #[cfg(tiny_http_verif)]
+            crate::verif::point(crate::verif::FP_POOL_DISPATCH, 1, queue.len());
             self.sharing.condvar.notify_one();
         }
     }
@@ -89,6 +95,8 @@ impl TaskPool {
             }
 
             loop {
+                #[cfg(tiny_http_verif)]
+                crate::verif::point(crate::verif::FP_POOL_WORKER_LOOP, 0, 0);
                 let mut task: Box<dyn FnMut() + Send> = {
                     let mut todo = sharing.todo.lock().unwrap();
 
@@ -133,5 +141,18 @@ impl Drop for TaskPool {
             .active_tasks
             .store(999_999_999, Ordering::Release);
         self.sharing.condvar.notify_all();
+    }
+}
+
+#[cfg(tiny_http_verif)]
+impl TaskPool {
+    /// `(queued tasks, idle workers, running workers)`, read while holding the queue mutex.
+    pub fn verif_snapshot(&self) -> (usize, usize, usize) {
+        let queue = self.sharing.todo.lock().unwrap();
+        (
+            queue.len(),
+            self.sharing.waiting_tasks.load(Ordering::Acquire),
+            self.sharing.active_tasks.load(Ordering::Acquire),
+        )
     }
 }
